@@ -494,6 +494,8 @@ func Enum[C any](name string, gen func(ctx *Ctx), replay func(C, *Rec)) Sub {
 
 // Main is the single test entry point of a property package.
 func Main(t *testing.T, prop string, subs ...Sub) {
+	// runaway recursion should fail in milliseconds, not after a gigabyte of stack
+	debug.SetMaxStack(64 << 20)
 	if rp := os.Getenv("VERIF_REPLAY"); rp != "" {
 		doReplay(t, prop, rp, subs)
 		return
